@@ -420,6 +420,9 @@ class FilterSummary:
             # have the same number of rows) or is that block itself
             is_first = n_of is not None and (n_of == canon(first) or (n_origin == o1 and o1 != o2 and n_origin != "?"))
             if is_first:
+                # either way the kept indices are first occurrences of distinct (rounded) rows inside the candidate block:
+                # the pass de-duplicates the candidates as well (rows that are equal are equal after rounding)
+                detail["dedupes"] = True
                 if o1 == "cand" and o2 == "log" and op in (ast.Lt,):
                     return Stage("removal", s, detail, False,
                                  "np.unique(vstack((candidates, log)), return_index=True) reports the *first* occurrence of a row; a candidate that equals a logged row occurs first in the candidate block, "
@@ -513,7 +516,8 @@ class _FilterPolicy(BasePolicy):
                 return EMPTY
             tag = _STAGE_TAG.get(st.kind)
             if tag == "REM":
-                return base | {"REM"}  # whether the idiom removes anything is R2's verdict; here: the stage is applied
+                # whether the idiom removes anything is R2's verdict; here: the stage is applied
+                return base | {"REM"} | ({"UNIQ"} if st.detail.get("dedupes") and st.detail.get("cmp") in ("Lt", "GtE") else frozenset())
             if tag is not None and st.ok:
                 if tag == "FEAS" and "BOX" not in base:
                     return base  # a constraint evaluated on rows that are not boxed yet does not count
